@@ -43,13 +43,16 @@ def scanH (f : Bytes) (fuel : Nat) (h : HS) : HS × Bool :=
   else
     ({ rs := (scan f fuel h.rs).1, heap := h.heap ++ [(scan f fuel h.rs).1.buf], cur := h.heap.length }, (scan f fuel h.rs).2)
 
-/-- Where the token of the last successful `Scan` lies: `ScanLines` returns `Trim(data[i:])` with `i` = the new
-`end`; the final token (`done`) is `Trim(buf[0:end])`.  An empty token is the nil slice. -/
+/-- Where the token of the last successful `Scan` lies: `ScanLines` returns `trimLine(data[i:])` with `i` = the new
+`end`; the final token (`done`) is `trimLine(buf[0:end])`: it starts after the leading '\n' if there is one (variant
+`trimAll`: after all leading '\r' / '\n').  An empty token is the nil slice. -/
 def tokenSlice (cur : Nat) (s : RS) : Slice :=
   if s.token.isEmpty then { arr := cur, off := 0, len := 0 }
   else
     let i := if s.done then 0 else s.stop
-    { arr := cur, off := i + ((s.buf.drop i).takeWhile isCRLF).length, len := s.token.length }
+    let skip := if s.trimAll then ((s.buf.drop i).takeWhile isCRLF).length
+      else if (s.buf.drop i).head? == some NL then 1 else 0
+    { arr := cur, off := i + skip, len := s.token.length }
 
 /-- One `Emit`: `clone = true` is the code as it is (bytes.Clone), `clone = false` the code before the D20 repair. -/
 def emitH (clone : Bool) (f : Bytes) (fuel : Nat) (h : HS) : HS × Option Slice :=
